@@ -15,7 +15,33 @@ Fixpoint apply_mapping (m : list (str * str)) (s : str) : str :=
 Definition latex_lookup (cmd : str) : str :=
   match assoc cmd latex_table with Some v => v | None => cmd end.
 
-(* pass 2: re.sub(r"\\[a-zA-Z]+(?:\{[^}]*\})?", lookup-or-identity) *)
+(* keys that are not of the shape \letters or \letters{...}: matched literally, longest first *)
+Definition is_letter_command (k : str) : bool :=
+  match k with
+  | 92 :: rest =>
+    let '(name, tail) := span is_alpha rest [] in
+    match name with
+    | [] => false
+    | _ => match tail with
+           | [] => true
+           | 123 :: r => match rev' r with 125 :: inner => negb (existsb (N.eqb 125) inner) | _ => false end
+           | _ => false
+           end
+    end
+  | _ => false
+  end.
+
+Definition special_keys : list (str * str) := filter (fun kv => negb (is_letter_command (fst kv))) latex_table.
+
+Fixpoint longest_key (tbl : list (str * str)) (s : str) (best : option (str * str)) : option (str * str) :=
+  match tbl with
+  | [] => best
+  | (k, v) :: r =>
+    if starts_with k s && match best with Some (b, _) => Nat.ltb (length b) (length k) | None => true end
+    then longest_key r s (Some (k, v)) else longest_key r s best
+  end.
+
+(* pass 2: re.sub(special keys | r"\\[a-zA-Z]+(?:\{[^}]*\})?", lookup-or-identity) *)
 Fixpoint latex_fuel (fuel : nat) (s : str) : str :=
   match fuel with
   | O => s
@@ -24,6 +50,9 @@ Fixpoint latex_fuel (fuel : nat) (s : str) : str :=
     | [] => []
     | c :: r =>
       if N.eqb c 92 then
+        match longest_key special_keys s None with
+        | Some (k, v) => v ++ latex_fuel f (drop (length k) s)
+        | None =>
         let '(name, rest) := span is_alpha r [] in
         match name with
         | [] => c :: latex_fuel f r
@@ -40,6 +69,7 @@ Fixpoint latex_fuel (fuel : nat) (s : str) : str :=
             end
           | _ => latex_lookup cmd ++ latex_fuel f rest
           end
+        end
         end
       else c :: latex_fuel f r
     end
